@@ -334,6 +334,28 @@ def main():
     # ---------------------------------------------------------------- bounded stand-in for units that could not be brought under contract
     # (the function was restructured so that the overlay no longer applies): the unit's replay oracle - an executable restatement
     # of the same postcondition, run on the real code over a stated finite set of inputs - may still find a concrete failing input.
+    def known_classes(orc, info):
+        """an oracle may classify failing inputs it finds into named classes (`KNOWN-CLASS <id>: <input>`): a class listed in
+        known_findings.txt is a known finding (printed, exit 0); an unlisted class is a violation"""
+        seen = {}
+        for l in info.split('\n'):
+            m = re.search(r'KNOWN-CLASS (\S+): (.*)$', l)
+            if m and m.group(1) not in seen:
+                seen[m.group(1)] = m.group(2)[:300]
+        for cls, sample in seen.items():
+            oblid = 'bounded-oracle::%s::%s' % (os.path.basename(orc['file']), cls)
+            e = {'obligation': oblid, 'unit': None, 'function': None, 'kind': 'bounded-oracle', 'message': 'bounded oracle found a failing input of class %s on the real code' % cls,
+                 'clause': sample, 'source': orc['target'], 'rendered': sample, 'oracle_found': True}
+            hit = None
+            for k in known_here:
+                if k['obligation'] == oblid:
+                    hit = k
+            known_obl.append({'obligation': oblid, 'message': e['message'], 'listed': bool(hit), 'sample_input': sample})
+            if hit:
+                known_hits.append((hit, e))
+            else:
+                violations.append(dict(e, why='failing input of a class that is not a listed known finding'))
+
     oracle_standins = []
     oracle_units = sorted(undecided_units)
     if tier == 'thorough' and not args.only:
@@ -347,6 +369,7 @@ def main():
         if not orc:
             continue
         ok, info = run_oracle(orc, args.repo)
+        known_classes(orc, info)
         fails = [l for l in info.split('\n') if 'FAILING INPUT' in l][:5]
         ran = re.findall(r'test result: ok\. (\d+) passed', info)
         oracle_standins.append({'unit': u, 'oracle': orc['file'], 'kind': 'bounded', 'role': 'stand-in for an undecided unit' if u in undecided_units else 'supplementary (unit is proved)',
@@ -363,6 +386,7 @@ def main():
         if args.only or (tier != 'thorough' and not orc.get('quick')):
             continue
         ok, info = run_oracle(orc, args.repo)
+        known_classes(orc, info)
         fails = [l for l in info.split('\n') if 'FAILING INPUT' in l][:5]
         ran = re.findall(r'test result: ok\. (\d+) passed', info)
         oracle_standins.append({'unit': None, 'oracle': orc['file'], 'kind': 'bounded', 'role': 'end-to-end safety net (glue code not under contract)',
@@ -539,6 +563,13 @@ def run_oracle(orc, repo):
                            cwd=scratch, env=env, capture_output=True, text=True, timeout=1200)
         out = p.stdout + p.stderr
         failed = 'test result: FAILED' in out or re.search(r'\d+ failed', out) is not None and 'test result: ok' not in out
+        # the real code killed the test process (stack overflow / abort / segmentation fault): that IS a failing input - the last input
+        # the oracle announced (`TRYING ...`) - not an oracle that "did not run"
+        if re.search(r'has overflowed its stack|stack overflow|signal: (6|11),', out):
+            last = [l for l in out.split('\n') if l.startswith('TRYING ')]
+            out += '\nFAILING INPUT: the process running the real code was killed (%s) while handling: %s\n' % (
+                'stack overflow' if 'overflow' in out else 'abort / segmentation fault', last[-1][7:] if last else '<input not announced>')
+            failed = True
         return bool(failed), out
     except Exception as e:
         return False, 'oracle error: %s' % e
